@@ -28,6 +28,7 @@ type RC struct {
 
 	wrappers   map[*FuncInfo]bool
 	sendSites  []*SendSite
+	divDepth   int
 	kindCaller *FuncInfo // see kindsOfExpr: the caller supplying function arguments to a higher-order helper
 	kindCache  map[string][]string
 	epochCl    map[*FuncInfo]bool
